@@ -9,6 +9,7 @@ package sod
 
 import (
 	"compress/gzip"
+	"encoding/json"
 	"errors"
 	"io"
 	"io/fs"
@@ -225,3 +226,18 @@ func vCrashRun(f func()) (crashed bool) {
 	f()
 	return false
 }
+
+// vfsJSONEncoder: json.NewEncoder over a file counts one write step per
+// Encode (the encoder issues one Write per value), like the engine's model.
+type vfsStepWriter struct{ w io.Writer }
+
+func (s vfsStepWriter) Write(p []byte) (int, error) {
+	if _, isFile := s.w.(*os.File); isFile {
+		if !vfsStep() {
+			return 0, vfsEIO("write", "?")
+		}
+	}
+	return s.w.Write(p)
+}
+
+func vfsJSONEncoder(w io.Writer) *json.Encoder { return json.NewEncoder(vfsStepWriter{w}) }
